@@ -156,12 +156,18 @@ write sets are part of the obligation), and the JSON-LD wrapper of the package-l
 def allowedDynamic : List String :=
   ["fn", "OnItem:fn", "fmtObjectProps(s)", "fmtActivityProps(s)", "fmtIntransitiveActivityProps(s)", "jsonld.Marshal"]
 
+/-- a call of a function value is accounted for: one of the listed ones, or the callback `fn` a view of the On*
+family was handed, invoked inside that view on the converted value (the callback's own body is analysed where
+it is written, as a function literal rooted at the data passed along) -/
+def dynOK (d : String) : Bool :=
+  allowedDynamic.contains d || (d.startsWith "On" && d.endsWith ":fn")
+
 /-- Every read-only operation of the current source has an empty write set (it writes through none of
 its parameters or receiver, directly or through the package's call graph), hands its arguments only to
 allowed external functions, and the scan covered all of them. -/
 theorem C12_write_sets :
     (writeSets.filter (fun r => isReadOnly r.1 r.2.1)).all (fun r =>
-      r.2.2.1.isEmpty && r.2.2.2.1.all allowedExternal.contains && r.2.2.2.2.all allowedDynamic.contains) = true ∧
+      r.2.2.1.isEmpty && r.2.2.2.1.all allowedExternal.contains && r.2.2.2.2.all dynOK) = true ∧
     readOnlyFuncs.all (fun f => writeSets.any (fun r => r.1 == f)) = true ∧
     ["Object", "Actor", "Activity", "IntransitiveActivity", "Question", "Collection", "OrderedCollection", "CollectionPage",
      "OrderedCollectionPage", "Place", "Profile", "Relationship", "Tombstone", "Link", "IRI", "IRIs", "ItemCollection",
